@@ -37,6 +37,15 @@ type c04Case struct {
 	Capacity int       `json:"capacity"`
 	Notify   bool      `json:"notify"`
 	Stride   int       `json:"stride"`         // enumerate every Stride-th position (1 = all)
+	// DstSynced: the prior destination is the result of an earlier complete transfer
+	// of this source (all entries, the many files included) plus the drawn edits
+	DstSynced bool `json:"dst_synced,omitempty"`
+	// DiskSrc: the source is an on-disk tree read through NewFS (no injected source faults)
+	DiskSrc bool `json:"disk_src,omitempty"`
+	// SlowSendUS: the sender's side of the stream takes this long per packet (a slow
+	// link): the receiver's queues fill from the destination side instead
+	SlowSendUS int `json:"slow_send_us,omitempty"`
+	srcDir     string
 	Only     *c04Fault `json:"only,omitempty"` // replay a single fault
 }
 
@@ -57,13 +66,21 @@ func genC04(t *rapid.T) *c04Case {
 		c.Many = rapid.SampledFrom([]int{150, 300, 400, 600}).Draw(t, "many")
 		c.Stride = rapid.SampledFrom([]int{29, 41, 59}).Draw(t, "stride")
 	}
-	if rapid.Bool().Draw(t, "dirtydst") {
+	if rapid.Bool().Draw(t, "dirtydst") || (c.Many > 0 && rapid.Bool().Draw(t, "dirtydst2")) {
 		d := c.Tree
-		for i := 0; i < rapid.IntRange(1, 3).Draw(t, "nedits"); i++ {
+		c.DstSynced = rapid.Bool().Draw(t, "dstsynced") || (c.Many > 0 && rapid.Bool().Draw(t, "dstsynced2"))
+		if c.DstSynced {
+			d = c04Tree(c)
+		}
+		for i := 0; i < rapid.IntRange(0, 3).Draw(t, "nedits"); i++ {
 			d, _ = h.GenEdit(t, d, fmt.Sprintf("e%d", i), c04TreeCfg.Names)
 		}
 		c.Dst = d
-		h.AlignIdentical(c.Tree, c.Dst, false, 0, 0)
+		h.AlignIdentical(c04Tree(c), c.Dst, false, 0, 0)
+	}
+	c.DiskSrc = rapid.IntRange(0, 3).Draw(t, "disksrc") == 0
+	if c.Many > 0 && rapid.Bool().Draw(t, "slowsend") {
+		c.SlowSendUS = rapid.SampledFrom([]int{6, 12}).Draw(t, "slowsendus")
 	}
 	return c
 }
@@ -85,6 +102,16 @@ func c04Tree(c *c04Case) *h.Tree {
 
 var errInjected = errors.New("verif: injected fault")
 
+// spinFor occupies the calling goroutine for about us microseconds (timers are
+// too coarse for per-packet delays of a few microseconds).
+func spinFor(us int) {
+	if us <= 0 {
+		return
+	}
+	for t0 := time.Now(); time.Since(t0) < time.Duration(us)*time.Microsecond; {
+	}
+}
+
 type c04Counts struct {
 	SendS, RecvS, SendR, RecvR int
 	Walk, Hasher, Notify       int
@@ -102,6 +129,12 @@ type c04Run struct {
 func c04RunOnce(tree *h.Tree, dstDir string, c *c04Case, f *c04Fault) *c04Run {
 	run := &c04Run{}
 	mem := &h.MemFS{T: tree, LinkSizeFull: true}
+	var src fsutil.FS = mem
+	if c.DiskSrc && c.srcDir != "" {
+		if dfs, err := fsutil.NewFS(c.srcDir); err == nil {
+			src = dfs
+		}
+	}
 	var fired int32
 	fire := func() { atomic.StoreInt32(&fired, 1) }
 	var hashN, notifyN int32
@@ -162,6 +195,9 @@ func c04RunOnce(tree *h.Tree, dstDir string, c *c04Case, f *c04Fault) *c04Run {
 	}
 	setup := func(p *h.Pair) {
 		pairRef = p
+		if c.SlowSendUS > 0 {
+			p.S.AfterSend = func(int, *types.Packet) { spinFor(c.SlowSendUS) }
+		}
 		if f == nil {
 			return
 		}
@@ -228,6 +264,7 @@ func c04RunOnce(tree *h.Tree, dstDir string, c *c04Case, f *c04Fault) *c04Run {
 			}
 		case "S.cancel":
 			p.S.AfterSend = func(n int, _ *types.Packet) {
+				spinFor(c.SlowSendUS)
 				if n == f.K {
 					fire()
 					cancelSend()
@@ -242,7 +279,7 @@ func c04RunOnce(tree *h.Tree, dstDir string, c *c04Case, f *c04Fault) *c04Run {
 			}
 		}
 	}
-	run.res = h.RunSync(mem, dstDir, h.SyncOpt{Capacity: c.Capacity, Recv: opt, Setup: setup, CheckLeaks: true,
+	run.res = h.RunSync(src, dstDir, h.SyncOpt{Capacity: c.Capacity, Recv: opt, Setup: setup, CheckLeaks: true,
 		SetupCalls: func(cs, cr func()) { cancelSend, cancelRecv = cs, cr }})
 	if f != nil && (f.Kind == "walk" || f.Kind == "read") {
 		// these fire inside the source: detect from the source's own counters
@@ -277,6 +314,19 @@ func c04Check(env *h.Env, c *c04Case) error {
 		}
 		s, err := h.Snapshot(d)
 		return d, s, h.Infra(err)
+	}
+	if c.DiskSrc {
+		c.srcDir = filepath.Join(env.Scratch, "src")
+		if err := os.Mkdir(c.srcDir, 0o755); err != nil {
+			return h.Infra(err)
+		}
+		if err := h.Materialise(tree, c.srcDir); err != nil {
+			return h.Infra(err)
+		}
+		env.Class("on-disk-source")
+	}
+	if c.DstSynced {
+		env.Class("destination-from-earlier-sync")
 	}
 	// fault-free reference run: counts the operations
 	d0, before0, err := newDest("d0")
@@ -314,7 +364,9 @@ func c04Check(env *h.Env, c *c04Case) error {
 	} else {
 		add := func(kind string, n int) {
 			for k := 1; k <= n; k++ {
-				if c.Stride > 1 && k > 6 && k < n-3 && k%c.Stride != 0 {
+				// strided enumeration keeps the first and last positions and a few in the
+				// middle (queues between the loops are full only for a while)
+				if c.Stride > 1 && k > 6 && k < n-3 && k%c.Stride != 0 && k != n/4 && k != n/3 && k != n/2 && k != 2*n/3 {
 					continue
 				}
 				faults = append(faults, c04Fault{Kind: kind, K: k})
@@ -334,7 +386,9 @@ func c04Check(env *h.Env, c *c04Case) error {
 				faults = append(faults, c04Fault{Kind: "R.cancel-stalled", K: k})
 			}
 		}
-		add("walk", cnt.Walk)
+		if !c.DiskSrc {
+			add("walk", cnt.Walk)
+		}
 		needHN := c.Notify
 		if needHN {
 			add("hasher", cnt.Hasher)
@@ -345,6 +399,9 @@ func c04Check(env *h.Env, c *c04Case) error {
 		}
 		n := 0
 		for _, nd := range tree.Nodes {
+			if c.DiskSrc {
+				break
+			}
 			if nd.Kind == h.KFile && nd.LinkTo == "" {
 				n++
 				if c.Stride > 1 && n > 3 && n%c.Stride != 0 {
